@@ -190,4 +190,43 @@ theorem numberK_single_edit (pre post : List (String × Option RVal)) (a : Strin
     rw [e1, e1]
     simp [hv]
 
+
+theorem getD_none_iff (d : Data) (k : Key) : getD d k = none ↔ k ∉ d.map (·.1) := by
+  induction d with
+  | nil => simp [getD]
+  | cons kv rest ih =>
+    by_cases h : kv.1 = k
+    · simp [getD, h]
+    · have h' : ¬ k = kv.1 := fun e => h e.symm
+      simp [getD, h, h', ih]
+
+/-- one entry per call: the keys of the numbered outputs are pairwise distinct … -/
+theorem numberK_nodup : ∀ (l : List (String × Option RVal)) (c : List (String × Nat)),
+    ((numberK c l).map (·.1)).Nodup := by
+  intro l
+  induction l with
+  | nil => intro c; simp [numberK]
+  | cons x l ih =>
+    intro c
+    obtain ⟨a, ov⟩ := x
+    cases ov with
+    | none => simpa [numberK] using ih _
+    | some v =>
+      simp only [numberK, List.map_cons, List.nodup_cons]
+      refine ⟨(getD_none_iff _ _).1 ?_, ih _⟩
+      rw [getD_numberK]; simp [cnt_bumpC_same]
+
+/-- … and there are as many entries as calls whose value was captured -/
+theorem numberK_length : ∀ (l : List (String × Option RVal)) (c : List (String × Nat)),
+    (numberK c l).length = (l.filter (fun x => x.2.isSome)).length := by
+  intro l
+  induction l with
+  | nil => intro c; rfl
+  | cons x l ih =>
+    intro c
+    obtain ⟨a, ov⟩ := x
+    cases ov with
+    | none => simpa [numberK] using ih _
+    | some v => simp [numberK, ih]
+
 end PlaybackModel.Recorder
